@@ -6,8 +6,9 @@ non-terminals).  Two parts:
 
   loads      the same record multiset loaded in several generated permutations, through
              dns.zone.from_text(zone_factory=dns.btreezone.Zone) and through one big transaction
-  histories  an initial load followed by committed (and a few rolled-back) transactions that
-             add / replace / delete NS and non-NS records at, above and below cuts
+  histories  an initial load followed by committed (and a few rolled-back, a few replacement)
+             transactions that add / replace / delete NS and non-NS records at, above and below
+             cuts
 
 After EVERY commit (and for every load order) the committed version is compared with
 vlib/ref/bzone_model.py, which recomputes everything from the committed content alone:
@@ -79,10 +80,11 @@ LEVEL_TEXT = (
 RULE = (
     "cases: (loads) one record multiset over a 30-name cut-creating pool loaded in 2-4 generated "
     "permutations via from_text or one transaction; (histories) initial load + 1-7 transactions of "
-    "add/replace/delete-rdata/delete-type/delete-name at, above and below cuts, some rolled back; "
+    "add/replace/delete-rdata/delete-type/delete-name at, above and below cuts, some rolled back, "
+    "some replacing the whole zone; "
     "both with relativize on/off, two origins, B-tree t default or 3, 11-33 bounds query names "
     "(pool names, their RFC 4471 predecessors/successors, children, siblings, names under cuts, "
-    "first/last literals, both spellings); non-trivial = a fully compared commit had a nested cut "
+    "first/last literals, relative/absolute spelling, Name or str); non-trivial = a fully compared commit had a nested cut "
     "or a fully compared history removed a cut while names remained beneath it, and >=10 bounds "
     "queries were compared of which >=1 fell under a cut and >=1 had the apex as closest encloser; "
     "distinct by SHA-1 of the descriptor"
@@ -140,7 +142,6 @@ POOL = [
     ("zz",),
     ("a", "zz"),  # 25
 ]
-_APEX = 0
 # query-only names: the empty non-terminals and names around them
 QPOOL = POOL + [
     ("f",),
@@ -542,7 +543,8 @@ def _check_version(ctx, v, m, queries, where):
             continue
         qk = W.name_key(labs)
         rel_labs = labs[: len(labs) - len(ctx.origin_labels)]
-        qname = dns.name.Name(labs if q[-1] else rel_labs)
+        qname = dns.name.Name(labs if q[-1] & 1 else rel_labs)
+        qarg = qname.to_text() if q[-1] & 2 else qname  # bounds() documents Name or str
         stored = dns.name.Name(rel_labs if ctx.rel else labs)  # the zone's own relativity
         mb = m.bounds(qk)
         tag = f"{where}: bounds({qname})"
@@ -560,7 +562,7 @@ def _check_version(ctx, v, m, queries, where):
         if v.delegations.is_glue(stored) != want_pair[1]:
             raise Violation("delegations", f"{where}: is_glue({stored}) != {want_pair[1]}", "is_glue")
 
-        b = v.bounds(qname)
+        b = v.bounds(qarg)
         ctx.q_compared += 1
         if owner_key(b.name, origin) != qk:
             raise Violation("bounds", f"{tag}: .name is {b.name}", "name")
@@ -641,10 +643,9 @@ def _initial_state():
     return {}
 
 
-def _finish(ctx, extra_nontrivial=True):
+def _finish(ctx):
     nontrivial = bool(
-        extra_nontrivial
-        and (ctx.nested_seen or ctx.cut_removed_glue_left)
+        (ctx.nested_seen or ctx.cut_removed_glue_left)
         and ctx.q_compared >= 10
         and ctx.q_under_cut
         and ctx.q_ce_apex
@@ -671,8 +672,6 @@ def _note(ctx, events, taint, committed=True):
 
 
 def run_loads(case):
-    import dns.name
-
     base = _Ctx(case)
     records = case["records"]
     agg = None
@@ -729,9 +728,15 @@ def run_history(case):
     _check_version(ctx, v, _model(ctx.apex, state), queries, "after load")
     prev = (v, _snapshot(v, origin))
     for ti, txn_d in enumerate(case["txns"]):
-        post, executed, taint, events = _simulate(ctx, state, txn_d["ops"])
         rollback = bool(txn_d.get("rollback"))
-        txn = zone.writer()
+        replacement = bool(txn_d.get("replacement"))
+        if replacement:
+            # a replacement transaction starts from an empty zone; the apex is always rebuilt
+            ops = [["add"] + _SOA, ["add", 0, "NS", 0, 0]] + txn_d["ops"]
+            post, executed, taint, events = _simulate(ctx, _initial_state(), ops)
+        else:
+            post, executed, taint, events = _simulate(ctx, state, txn_d["ops"])
+        txn = zone.writer(replacement)
         try:
             _apply_ops(ctx, txn, executed)
         except BaseException:
@@ -742,6 +747,10 @@ def run_history(case):
             ctx.classes.add("rollback")
         else:
             txn.commit()
+            if replacement:
+                # nodes and index are rebuilt from scratch: an earlier D15 divergence is gone
+                ctx.tainted = False
+                ctx.classes.add("replacement-txn")
             _note(ctx, events, taint)
             state = post
         # the previously committed version is a snapshot: its derived state must not move
@@ -825,12 +834,16 @@ def _txn(draw, focus, maxops):
             ["add", n, "NS", draw(st.integers(0, 1)), draw(st.integers(0, 1))],
             [draw(st.sampled_from(["add", "replace", "del_rd"])), n, draw(st.sampled_from(["A", "TXT"])), draw(st.integers(0, 1)), draw(st.integers(0, 1))],
         ]
-    return {"ops": ops, "rollback": draw(st.integers(0, 7)) == 0}
+    return {
+        "ops": ops,
+        "rollback": draw(st.integers(0, 7)) == 0,
+        "replacement": draw(st.integers(0, 9)) == 0,
+    }
 
 
 def _query():
     qi = st.integers(0, len(QPOOL) - 1)
-    sp = st.integers(0, 1)
+    sp = st.sampled_from([0, 1, 0, 1, 2, 3])
     lab = st.integers(0, len(QLABELS) - 1)
     return st.one_of(
         st.tuples(st.just("pool"), qi, sp),
@@ -908,7 +921,7 @@ def parts(tier):
             "loads",
             run_loads,
             strategy=load_cases(12 if quick else 18),
-            n={"quick": 1600, "thorough": 16 * 1500},
+            n={"quick": 2000, "thorough": 20000},
             require={
                 "load-permutations>=2": 200,
                 "load-permutation-compared": 200,
@@ -935,7 +948,7 @@ def parts(tier):
             "histories",
             run_history,
             strategy=history_cases(10 if quick else 14, 7 if quick else 10, 5 if quick else 7),
-            n={"quick": 2400, "thorough": 16 * 2500},
+            n={"quick": 3000, "thorough": 30000},
             require={
                 "history-fully-compared": 200,
                 "relativized": 200,
@@ -956,6 +969,7 @@ def parts(tier):
                 "last-rdataset-deleted": 100,
                 "replace": 100,
                 "rollback": 50,
+                "replacement-txn": 50,
                 "bounds:right=None": 200,
                 "bounds:is_equal": 200,
                 "bounds:not_equal": 200,
